@@ -15,11 +15,14 @@ pub struct Gen<'a> {
     recent: Vec<String>,
     /// partner of the last related pair, handed out by one of the next `text` calls
     pending: Option<String>,
+    /// counter-signature nesting level of the header being generated (0 = a message's own
+    /// headers); kept by the generators so that nesting stays within the decoder's limit of 8
+    pub cs_level: usize,
 }
 
 impl<'a> Gen<'a> {
     pub fn new(tape: &'a [u8]) -> Self {
-        Gen { u: Unstructured::new(tape), recent: Vec::new(), pending: None }
+        Gen { u: Unstructured::new(tape), recent: Vec::new(), pending: None, cs_level: 0 }
     }
     pub fn remaining(&self) -> usize {
         self.u.len()
